@@ -99,6 +99,18 @@ def direct_chunk(args):
             n += 1
             if g != exp:
                 mism.append({'fn': 'escape_str_for_quote', 's': repr(s), 'quote': q, 'impl': exp, 'model': g})
+            elif exp.startswith('(ok'):
+                # the spec-side decoder (Spec/Unescape.lean) against CPython's: decode the implementation's escaped body
+                body = e_impl
+                u = drv.ask('(unesc %d (%s))' % (ord(q), DOCS.cps(body)))
+                try:
+                    py = eval(('b' if isb else '') + q + body + q)
+                    want = sx_str('ok', py.decode('latin-1') if isb else py)
+                except Exception:
+                    want = 'invalid'
+                n += 1
+                if u != want:
+                    mism.append({'fn': 'unescape(spec)-vs-eval', 's': repr(s), 'quote': q, 'body': body, 'impl': want, 'model': u})
             for ml in max_lens:
                 try:
                     lines = list(P.str_to_lines(ml, q, s))
@@ -279,6 +291,9 @@ def strings_section(tier, seed):
             nt2 += t
             mism.extend(mm)
             fails.extend(ff)
+    lb = literal_bodies_section(rng, 3000 if tier == 'quick' else 30000)
+    mism.extend(lb)
+    stats['literal_bodies_checked'] = 3000 if tier == 'quick' else 30000
     stats['evaluator_cases'] = len(cases)
     stats['evaluator_layouts'] = tot2
     stats['evaluations'] += tot2
@@ -291,3 +306,29 @@ def strings_section(tier, seed):
                      'pretty_str\'s contextual document after a prefix / under a nest, 4 strategies, subclass or not, through layout_smart at 15 widths x 3 ribbons; '
                      'non-trivial = strings actually split into >= 2 pieces / layouts depending on the width' % L)
     return stats, mism, fails
+
+
+def literal_bodies_section(rng, n):
+    """adversarial literal bodies (valid and invalid) through the spec decoder and CPython's eval"""
+    drv = Driver()
+    mism = []
+    alpha = ['\\', "'", '"', 'n', 'r', 't', 'x', 'u', 'U', '0', '1', 'a', 'f', 'F', 'g', ' ', '\n', '\xe9']
+    try:
+        for _ in range(n):
+            body = ''.join(rng.choice(alpha) for _ in range(rng.randint(0, 10)))
+            q = rng.choice(["'", '"'])
+            u = drv.ask('(unesc %d (%s))' % (ord(q), DOCS.cps(body)))
+            try:
+                import warnings
+                with warnings.catch_warnings():
+                    warnings.simplefilter('error')        # invalid escape sequences are a SyntaxWarning: treat as invalid
+                    py = eval(q + body + q)
+                want = sx_str('ok', py)
+            except Exception:
+                want = 'invalid'
+            # the spec decoder only needs to agree where it accepts, and to reject what CPython rejects
+            if u != want and not (u == 'invalid'):
+                mism.append({'fn': 'unescape(spec)-vs-eval', 'body': body, 'quote': q, 'impl': want, 'model': u})
+    finally:
+        drv.close()
+    return mism
